@@ -25,4 +25,16 @@ PROPS = {
             "required_probes": ["unlink_before-open", "unlink_after-read", "big_list"],
             "assumptions": ["a serialising scheduler cannot expose data races; those are looked for in the -race side mode under the real Go scheduler",
                             "unlink-after-open semantics are those of the Linux tmpfs"]},
+    "C01": {"scenario": "cachehist", "level": "exploration", "runs": {"quick": 30000, "thorough": 800000}, "components": COMPONENTS_L2,
+            "required_probes": ["legal_skip", "mixed_skipped_and_executed", "forced_success_on_edited_inputs"],
+            "assumptions": ["task commands do not modify dependency files", "a skip is observed through --json's skipped flag, or in plain mode through the task being named on stdout while none of its commands ran; --quiet runs report nothing"]},
+    "C02": {"scenario": "cachehist", "level": "exploration", "runs": {"quick": 30000, "thorough": 800000}, "components": COMPONENTS_L2,
+            "required_probes": ["mandatory_skip_observed", "mixed_skipped_and_executed"],
+            "assumptions": ["crash-free, disk-fault-free histories only (command failures and cache removal are part of the quantifier)"]},
+    "C09": {"scenario": "cachehist", "level": "exploration", "runs": {"quick": 30000, "thorough": 800000}, "components": COMPONENTS_L2,
+            "required_probes": ["legal_skip"],
+            "assumptions": ["the process exit status is observed as cmd.Execute() returning an error (cmd/spok/main.go turns that into exit 1)"]},
+    "C14": {"scenario": "cachehist", "level": "exploration", "runs": {"quick": 30000, "thorough": 800000}, "components": COMPONENTS_L2,
+            "required_probes": ["forced_run", "forced_success_on_edited_inputs"],
+            "assumptions": ["task commands do not modify dependency files"]},
 }
